@@ -244,13 +244,14 @@ def run_access(case, st):
 
 # ------------------------------------------------------------------ (b) schedules
 def sched_harness(nclients, s):
+    import can
     import canopen
     import canopen.sdo.client as cl_mod
     vsched.interpose(cl_mod.SdoClient, {"responses"})
-    bus = simenv.SimBus("manual")
+    bus = simenv.SimBus("ports")
     a, b = canopen.Network(), canopen.Network()
-    bus.attach(a, "client")
-    bus.attach(b, "server")
+    pa = bus.attach(a, "client")
+    pb = bus.attach(b, "server")
     o, idx = od()
     nodes = [5 + i for i in range(nclients)]
     remote = {n: a.add_node(n, o) for n in nodes}
@@ -264,35 +265,46 @@ def sched_harness(nclients, s):
                 v16 = 0x1111 * (n - 3)
                 text = "client-%d" % n
                 remote[n].sdo["T_UNSIGNED16"].raw = v16
+                l16 = local[n].sdo["T_UNSIGNED16"].raw                # read back from the local side at once
                 remote[n].sdo["T_VISIBLE_STRING"].raw = text          # 8 bytes -> segmented (2 segments)
+                lt = local[n].sdo["T_VISIBLE_STRING"].raw
                 got16 = remote[n].sdo["T_UNSIGNED16"].raw
                 gott = remote[n].sdo["T_VISIBLE_STRING"].raw
-                ok = got16 == v16 and gott == text and bytes(local[n].data_store[idx["UNSIGNED16"]][0]) == struct.pack("<H", v16) \
+                ok = got16 == v16 and gott == text and l16 == v16 and lt == text and \
+                    bytes(local[n].data_store[idx["UNSIGNED16"]][0]) == struct.pack("<H", v16) \
                     and bytes(local[n].data_store[idx["VISIBLE_STRING"]][0]) == text.encode()
-                results[n] = "ok" if ok else f"WRONG got16={got16!r} text={gott!r}"
+                results[n] = "ok" if ok else f"WRONG remote=({got16!r}, {gott!r}) local=({l16!r}, {lt!r})"
             except Exception as e:  # noqa: BLE001
                 results[n] = "EXC " + type(e).__name__ + ": " + str(e)[:60]
             done.append(n)
-            s.wake(bus)
+            s.wake(pa)
+            s.wake(pb)
         return body
 
-    def dispatcher():
-        while True:
-            while bus.pending:
-                bus.pump(1)
-            if len(done) == nclients and not bus.pending:
-                return
-            s.block(bus, None)
+    def dispatcher(port):
+        # the receive (notifier) thread of one network
+        def body():
+            while True:
+                while port.inbox:
+                    bus.pump_port(port, 1)
+                if len(done) == nclients + 1 and not port.inbox:      # every client and the noise source have finished
+                    return
+                s.block(port, None)
+        return body
 
     def noise():
         for k, (cid, d) in enumerate(((0x7F0, b"\x01"), (0x000, bytes([1, 99])), (0x70A, b"\x05"))):
             s.point(("noise", k))
-            import can
-            bus.pending.append((None, can.Message(arbitration_id=cid, data=d, is_extended_id=False)))
-            s.wake(bus)
+            for port in (pa, pb):
+                port.inbox.append((None, can.Message(arbitration_id=cid, data=d, is_extended_id=False)))
+                s.wake(port)
+        done.append("noise")
+        s.wake(pa)
+        s.wake(pb)
     for n in nodes:
         s.spawn(client(n), "client%d" % n)
-    s.spawn(dispatcher, "dispatcher")
+    s.spawn(dispatcher(pa), "rx-client-net")
+    s.spawn(dispatcher(pb), "rx-server-net")
     s.spawn(noise, "noise")
     return lambda: (tuple(sorted(results.items())), s.deadlock)
 
